@@ -5,6 +5,7 @@ import (
 	"regexp"
 	"strconv"
 	"strings"
+	"unicode"
 
 	"github.com/aquilax/hranoprovod-cli/v3/verifsim"
 	"pgregory.net/rapid"
@@ -252,10 +253,13 @@ func (c *CaseC09) Eval(ob *Obs) []Finding {
 // save, bit rot, garbage) are injected into well-formed worlds, combined with
 // read and write faults, for every command shape, under monitors.
 type CaseC08 struct {
-	Base      CLIBase   `json:"base"`
-	BookMut   []MutC08  `json:"book_mut"`
-	LogMut    []MutC08  `json:"log_mut"`
-	ExtraArgs []string  `json:"extra_globals"`
+	Base      CLIBase  `json:"base"`
+	BookMut   []MutC08 `json:"book_mut"`
+	LogMut    []MutC08 `json:"log_mut"`
+	ExtraArgs []string `json:"extra_globals"`
+	// Seq, when set, makes the case a recorded history: the worlds this process executed last, replayed
+	// in order. A crash that needs state left behind by earlier runs only reproduces that way.
+	Seq       []World   `json:"seq,omitempty"`
 	ReadFault int       `json:"read_fault"` // offset in the log, -1 none
 	SinkFail  int       `json:"sink_fail"`  // -1 none
 	Order     OrderPlan `json:"order"`
@@ -354,7 +358,8 @@ func genC08(thorough bool) func(t *rapid.T) Case {
 	names := shapeNames(nil)
 	return func(t *rapid.T) Case {
 		c := &CaseC08{ReadFault: -1, SinkFail: -1}
-		c.Base = genCLIBase(t, baseOpts{shapes: names, book: BookOpts{MaxRecipes: 6, Cycles: rapid.IntRange(0, 3).Draw(t, "cycles") == 3}, log: LogOpts{MaxDays: 5}})
+		c.Base = genCLIBase(t, baseOpts{shapes: names, book: BookOpts{MaxRecipes: 6, Cycles: rapid.IntRange(0, 3).Draw(t, "cycles") == 3},
+			log: LogOpts{MaxDays: 5, LongDays: rapid.IntRange(0, 7).Draw(t, "long_days") == 7}, hugeFiles: true})
 		c.BookMut = genMut(t, "bm")
 		c.LogMut = genMut(t, "lm")
 		if rapid.IntRange(0, 2).Draw(t, "extra_locals") == 2 {
@@ -366,7 +371,7 @@ func genC08(thorough bool) func(t *rapid.T) Case {
 		case 6:
 			c.Base.Inv.Food = rapid.SampledFrom([]string{"(", "[a-", "*", "\\", "(?P<x>", ""}).Draw(t, "bad_regex")
 		case 7:
-			c.Base.Inv.El = rapid.SampledFrom([]string{"", " ", "no such element", "\x00"}).Draw(t, "odd_el")
+			c.Base.Inv.El = rapid.SampledFrom([]string{"", " ", "no such element", "\x00", swapCase(c.Base.Inv.El), strings.ToUpper(c.Base.Inv.El)}).Draw(t, "odd_el")
 		case 8:
 			c.Base.Inv.Date = rapid.SampledFrom([]string{"", "never", "2021/99/99", "tomorrow", "last week"}).Draw(t, "odd_date")
 		case 9:
@@ -381,6 +386,23 @@ func genC08(thorough bool) func(t *rapid.T) Case {
 		c.Order = OrderPlan{Mode: rapid.SampledFrom([]string{"asc", "desc", "shuffle"}).Draw(t, "order"), Seed: rapid.Uint64().Draw(t, "order_seed")}
 		return c
 	}
+}
+
+func swapCase(s string) string {
+	r := []rune(s)
+	for i, c := range r {
+		switch {
+		case unicode.IsUpper(c):
+			r[i] = unicode.ToLower(c)
+		case unicode.IsLower(c):
+			r[i] = unicode.ToUpper(c)
+		}
+	}
+	return string(r)
+}
+
+func flakyC08() Case {
+	return &CaseC08{ReadFault: -1, SinkFail: -1, Seq: append([]World{}, recentWorlds...)}
 }
 
 var frameRe = regexp.MustCompile(`github\.com/aquilax/hranoprovod-cli/[^\s(]+`)
@@ -407,6 +429,14 @@ func crashSite(stack string) string {
 // the worker watchdog: a worker that does not come back is attributed to the
 // case it was evaluating.)
 func (c *CaseC08) Eval(ob *Obs) []Finding {
+	if len(c.Seq) > 0 {
+		for i, w := range c.Seq {
+			if r := ob.run(w); r.Panic != "" {
+				return []Finding{{"C08 panic-depends-on-earlier-runs at=" + crashSite(r.Stack), fmt.Sprintf("run %d of %d in one process (%q): %s\n%s", i+1, len(c.Seq), w.Argv, short(r.Panic, 200), short(r.Stack, 1200))}}
+			}
+		}
+		return nil
+	}
 	b := c.Base
 	b.Inv.Globals = append(append([]string{}, b.Inv.Globals...), c.ExtraArgs...)
 	w := b.world()
